@@ -88,6 +88,8 @@ def parse_sidecar(path):
             #   assert_stmt  SRC :: ITEM :: K :: TOKENS     statement K of the fn body is exactly TOKENS
             #   assert_count SRC :: ITEM :: TOKENS :: N     TOKENS occurs exactly N times in the item
             spec.setdefault("syntactic", []).append(s)
+        elif s.startswith("io_unwrap "):
+            spec.setdefault("io_unwrap", []).extend(s.split()[1:])
         elif s.startswith("crate_attr "):
             spec["crate_attrs"].append(s[11:].strip())
         elif s == "rules" or s.startswith("rules "):
@@ -127,7 +129,10 @@ def parse_sidecar(path):
             f = [x.strip() for x in s[7:].split(" :: ")]
             cur_item = ItemSpec(f[0], f[1])
             kind_, arg_ = f[2].split(None, 1)
-            cur_item.region = ((arg_.strip() if kind_ == "first_with" else "call:" + arg_.strip()), int(f[3]))
+            # kinds: first_with "LIT" | first_call NAME | loop_body K (the statements of the body of the fn's K-th loop,
+            # wherever it is nested -- e.g. inside a closure; N may be `all`)
+            pre_ = {"first_with": "", "first_call": "call:", "loop_body": "loop:"}[kind_]
+            cur_item.region = (pre_ + arg_.strip(), (-1 if f[3] == "all" else int(f[3])))
             spec["items"].append(cur_item)
             cur_fn = cur_item.fns.setdefault("", FnSpec())
             cur_site = None
@@ -526,6 +531,8 @@ def build_unit(spec, repo=REPO):
 def _build_unit(spec, repo=REPO):
     g = Generated()
     rsx.FMT_LITS.clear()
+    rsx.IO_UNWRAP.clear()
+    rsx.IO_UNWRAP.update(spec.get("io_unwrap", []))
     cdir = os.path.join(VERIF, "contracts")
     parts = ["".join(a + "\n" for a in spec["crate_attrs"]) + "use vstd::prelude::*;\nverus! {\n"]
     for p in spec["preamble"]:
@@ -562,7 +569,15 @@ def _build_unit(spec, repo=REPO):
             # the innermost block that has a statement containing the literal
             first = None
             best = None
-            for q0 in range(an.body_open, an.body_close):
+            if lit.startswith("loop:"):
+                lps_ = an.loops()
+                if int(lit[5:]) >= len(lps_):
+                    raise Undecided("lost anchor: %s :: %s: loop %s not found (fn has %d loops)" % (it.src, it.path, lit[5:], len(lps_)))
+                stmts = an.statements(lps_[int(lit[5:])][1], lps_[int(lit[5:])][2])
+                first = 0
+                if nst < 0:
+                    nst = len(stmts)
+            for q0 in ([] if lit.startswith("loop:") else range(an.body_open, an.body_close)):
                 if not rsx.is_p(an.st[q0], "{"):
                     continue
                 try:
